@@ -19,6 +19,9 @@ pub mod vm;
 
 mod bytecode;
 
+#[cfg(feature = "verif-hooks")]
+pub mod verif;
+
 pub mod version {
     pub const VERSION_STR: &str = env!("CARGO_PKG_VERSION");
 }
